@@ -119,6 +119,10 @@ func cmdStress(args []string) {
 		// a shape of its own: a rotated alphabet with a marker character, so that no earlier call can have prepared anything for it
 		rot := append(append([]rune{}, alpha[k:]...), alpha[:k]...)
 		spec := CharSpec{Len: 6, AllowChars: CPs(string(rot[:20]) + string(rune(0x3B1+k))), RequireSets: [][]int{CPs(string(rot[3:6]))}}
+		if k == 0 {
+			// the first recipe of this process that REQUIRES the ambiguous class (no earlier call can have prepared anything for it)
+			spec = CharSpec{Len: 8, Allow: int(spg.All), Require: int(spg.Ambiguous | spg.Digits)}
+		}
 		spec.norm()
 		shared := spareCap(spec.Recipe())
 		results := make([][]GenRes, *G)
@@ -161,7 +165,11 @@ func cmdStress(args []string) {
 	words := []string{"one", "two", "three", "kettő", "ice-cream", "zebra", "größe"}
 	sepReq := CharSpec{Len: 2, Allow: int(spg.Digits | spg.Symbols), Require: int(spg.Digits)}
 	sepReq.norm()
+	// a separator recipe that is refused for its failure rate (digit AND symbol in two characters): every separator is ""
+	sepLow := CharSpec{Len: 2, Allow: int(spg.All), Require: int(spg.Digits | spg.Symbols)}
+	sepLow.norm()
 	wls := []WLSpec{
+		{Words: CPsList(words), Len: 3, Cap: "none", Sep: "recipe", SepRecipe: &sepLow},
 		{Words: CPsList(words), Len: 4, Cap: "one", Sep: "SFDigits1"},
 		{Words: CPsList(words), Len: 3, Cap: "random", Sep: "recipe", SepRecipe: &sepReq},
 		{Words: CPsList(words), Len: 5, Cap: "all", Sep: "SFDigits1"}, // a second recipe sharing the list and the preset
